@@ -363,6 +363,11 @@ class _Builder:
         if isinstance(expr, ast.UnaryOp) and isinstance(expr.op, ast.Not):
             t, f = self.cond(expr.operand, preds, ctx, owner)
             return f, t
+        if isinstance(expr, ast.Constant):
+            # `while True:` / `if False:` - only the feasible edge exists
+            n = c._new("test", expr, owner, False, self.copy)
+            c._join(preds, n.id)
+            return ([(n.id, "T")], []) if expr.value else ([], [(n.id, "F")])
         mr = expr_may_raise(expr)
         n = c._new("test", expr, owner, mr, self.copy)
         c._join(preds, n.id)
